@@ -188,10 +188,12 @@ def addNotarizedF (b : Blk) (s : D) : D :=
       | some c => if c.rank > b.rank then some b else some c
     { s with block := blk, notarized := sortRank (nbs ++ [b]) }
 
-/-- `UpdateNotarizedBlock` body: proposed entries with that hash are replaced; the notarized loop assigns
-the old entry back to itself (entity.go:356) and changes nothing -/
+/-- `UpdateNotarizedBlock` body: every proposed entry and every notarized entry with that hash is replaced by the
+given block (entity.go:348; the notarized loop stores `b` since repo commit 1ab8ea2 — before, it assigned the old
+entry back to itself) -/
 def updateNotarizedF (b : Blk) (s : D) : D :=
-  { s with proposed := s.proposed.map fun x => if x.hash == b.hash then b else x }
+  { s with proposed := s.proposed.map (fun x => if x.hash == b.hash then b else x),
+           notarized := s.notarized.map (fun x => if x.hash == b.hash then b else x) }
 
 /-- `initialize()` + the rest of the accepted branch of `Restart` -/
 def restartBodyF (s : D) : D :=
